@@ -34,3 +34,30 @@ def c19(run, replay):
              "permission names, slice order/duplicates, nil vs empty slices, fresh and shared handler instances; "
              "distinct = distinct abstract rows",
         sig=lambda t: "row %s" % json.dumps(t["row"], sort_keys=True))
+
+
+# --------------------------------------------------------------------------------------------- C12
+@check("C12")
+def c12(run, replay):
+    run.assumptions += [
+        "universe: namespaces {A, B, ''} x methods {Foo, Bar} x 5 formatters x <=1 alias entry over all 24 candidate names; "
+        "name rows are a TLC RandomSubset sample per dimension (orders x alias tables), client and arity rows are complete",
+        "decodability of a JSON value into a declared Go type is decided by encoding/json (oracle inside the harness)",
+    ]
+    thorough = run.tier == "thorough"
+    wd = run.dir("work")
+    cfg = open(os.path.join(vp.SPEC, "DispatchMC.cfg")).read()
+    cfg = cfg.replace("NOrders = 6", "NOrders = %d" % (16 if thorough else 6)).replace("NAliases = 40", "NAliases = %d" % (250 if thorough else 40))
+    for f in os.listdir(vp.SPEC):
+        if f.startswith("Dispatch"):
+            import shutil
+            shutil.copy(os.path.join(vp.SPEC, f), wd)
+    with open(os.path.join(wd, "DispatchRun.cfg"), "w") as f:
+        f.write(cfg)
+    os.utime(os.path.join(wd, "DispatchRun.cfg"))
+    vp.table_check(
+        run, "DispatchMC", "DispatchTrace", "c12", mc_cfg="DispatchRun.cfg",
+        rule="rows of Dispatch.tla (name dispatch x alias x formatter x registration order; client/server naming; arity and "
+             "per-parameter decodability), each executed against a real RPCServer / custom-transport client; distinct = distinct abstract rows",
+        sig=lambda t: "row %s" % json.dumps(t["row"], sort_keys=True),
+        mc_timeout=1200, trace_timeout=1800)
